@@ -336,6 +336,7 @@ fn malformed(o: &mut Out, rng: &mut Rng) {
 }
 
 pub fn run_c10(o: &mut Out, tier: &str, seed: u64) {
+    crate::c07::run_recognition(o, seed, tier == "thorough");
     let mut rng = Rng::new(seed ^ 0xc10);
     let keys: u64 = if tier == "thorough" { 2000 } else { 300 };
     o.notes.push("c10: every key (a, B') is used 9 times: as is through from_random (c10_derive_sender) and as B' + T for each of the 8 small-order points T (incl. the identity) through from_key (c10_derive); direct checks against dalek: (a*B).mul_by_cofactor(), 8a*B' (torsion has no influence), sender/receiver symmetry".into());
